@@ -62,7 +62,28 @@ class C14(CoordMixin, Prop):
         return gen_exec(rng, rng.choice([1, 1, 1, 5]), nres, [x for x in ops if x != 1])
 
     def generate(self, rng, tier, n):
-        for i in range(n):
+        # timeout boundaries: below / at / above each limit
+        for i in range(max(6, n // 100)):
+            L = rng.choice([1, 5, 10])
+            which = rng.randrange(3)
+            cfg = ["none", "none", "none"]
+            cfg[which] = str(L)
+            d = rng.choice([L - 1, L, L, L + 1])
+            lines = [f"cfg {' '.join(cfg)} priority", "res 1 0", "start 2 1", "acq 2 1"]
+            if which == 0:
+                lines += [f"adv {d}", "watchdog", "adv 1", "watchdog", "exec 1 1 1 bbbb n:ok yes"]
+            elif which == 1:      # starvation needs phase G1 with resources not yet acquired: only a killer inside... not reachable
+                lines += [f"adv {d}", "maint", "exec 1 1 1 bbbb n:ok yes"]
+            else:
+                lines += [f"exec 1 1 - bbbb w:ok:{d} yes", f"exec 3 1 1 bbbb m:raise:{d} no", "exec 1 1 1 bbbb n:ok yes"]
+            yield {"lines": lines, "note": "timeout boundary"}
+        # malformed stream (ids reused while active, unknown tokens)
+        for i in range(max(5, n // 100)):
+            lines = ["cfg none none none priority", "res 1 0", "start 1 1", "acq 1 1",
+                     rng.choice(["start 1 3", "exec 1 2 1 bbbb n:ok yes", "frob 1", "acq 1", "res 1 1", "acq 7 1"]),
+                     "acq 1 1", "complete 1"]
+            yield {"lines": lines, "note": "malformed"}
+        for i in range(n):   # the bulk: random histories
             nres = rng.choice([1, 2, 3, 3])
             lines, others = self._setup_lines(rng, nres, rng.choice([0, 1, 1, 2, 2]))
             if rng.random() < 0.3:
@@ -72,12 +93,6 @@ class C14(CoordMixin, Prop):
             for _ in range(rng.choice([0, 1, 2, 4, 6])):
                 lines.append(self._further(rng, nres, ops))
             yield {"lines": lines, "note": "random"}
-        # malformed stream (ids reused while active, unknown tokens)
-        for i in range(max(5, n // 100)):
-            lines = ["cfg none none none priority", "res 1 0", "start 1 1", "acq 1 1",
-                     rng.choice(["start 1 3", "exec 1 2 1 bbbb n:ok yes", "frob 1", "acq 1", "res 1 1", "acq 7 1"]),
-                     "acq 1 1", "complete 1"]
-            yield {"lines": lines, "note": "malformed"}
 
     def exhaustive(self, tier):
         # every request list of length <= L over 2 resources x every foreign-holder pattern x every single fault
@@ -86,7 +101,7 @@ class C14(CoordMixin, Prop):
         faults = [("bbbb", "n:ok", "yes"), ("bnbb", "n:ok", "yes"), ("bxbb", "n:ok", "yes"), ("bbnb", "n:ok", "yes"),
                   ("bbbx", "n:ok", "yes"), ("bbbb", "n:raise", "yes"), ("bbbb", "n:ok", "no"), ("bbbb", "n:ok", "raise"),
                   ("bbbb", "n:ok", "absent"), ("bbbb", "k1:ok", "yes"), ("bbbb", "s:ok", "yes"), ("bbbb", "w:ok", "yes"),
-                  ("bbbb", "k1:raise", "yes"), ("nbbb", "n:ok", "yes"), ("bbbb", "w:ok:4", "yes"), ("bbbb", "m:raise:4", "no")]
+                  ("bbbb", "k1:raise", "yes"), ("nbbb", "n:ok", "yes"), ("bbbb", "w:ok:4", "yes"), ("bbbb", "m:raise:4", "no"), ("bbbb", "w:ok:3", "yes")]
         holders = ["free", "held-low", "held-high", "held-twice"]
         reqs = [r for k in range(0, L + 1) for r in itertools.product([1, 2], repeat=k)]
         pres = [(0, 0), (1, 1)] if tier == "quick" else [(0, 0), (0, 1), (1, 0), (1, 1)]
